@@ -1,8 +1,6 @@
 package validator
 
 import (
-	"fmt"
-
 	"github.com/ccbrown/api-fu/graphql/ast"
 	"github.com/ccbrown/api-fu/graphql/schema"
 )
@@ -95,7 +93,9 @@ func validateCoercion(from ast.Value, to schema.Type, allowItemToListCoercion bo
 	case *schema.NonNullType:
 		return validateCoercion(from, to.Type, allowItemToListCoercion)
 	default:
-		panic(fmt.Sprintf("unsupported input coercion type: %T", to))
+		// not an input type (e.g. a variable declared with an object type and given a default):
+		// the variable rules report the type itself, here the value simply cannot be coerced
+		ret = append(ret, newError(from, "cannot coerce to %v", to))
 	}
 	return ret
 }
